@@ -34,7 +34,6 @@ import (
 	"github.com/dadrus/heimdall/internal/handler/decision"
 	"github.com/dadrus/heimdall/internal/handler/proxy"
 	"github.com/dadrus/heimdall/internal/rules/rule"
-	"github.com/dadrus/heimdall/internal/x/testsupport"
 )
 
 // HandlerApp is a heimdall application whose decision/proxy handler stack is
@@ -66,15 +65,12 @@ func StartHandler(mode Mode, cfgYAML, rulesYAML string) (*HandlerApp, error) {
 		return nil, err
 	}
 
-	svcPort, err := testsupport.GetFreePort() // never bound; only part of the configuration
+	svcPort, err := freePort() // never bound; only part of the configuration
 	if err != nil {
 		return fail(err)
 	}
 
-	mgmtPort, err := testsupport.GetFreePort()
-	if err != nil {
-		return fail(err)
-	}
+	mgmtPort := 0 // nobody talks to the management service here: heimdall's own Listen picks a free port (no race)
 
 	rulesPath := filepath.Join(dir, "rules.yaml")
 	if err = os.WriteFile(rulesPath, []byte(rulesYAML), 0o600); err != nil {
